@@ -57,7 +57,8 @@ def main():
 
     # change(idx, column) with neither a preceding solve...4update nor an explicit eta (ETA only) is probed in separate
     # processes: a crash there must not hide the other cases
-    probes = []
+    probes = [c for c in cases if c.get("probe") == "change-without-eta"]
+    cases = [c for c in cases if c.get("probe") != "change-without-eta"]
     if not ck.args.replay:
         for k in range(6 if ck.tier == "quick" else 40):
             c = lu.plan_case(ck.rng, "D", 8, 6, lu.FAMILIES, utype=0, modes=["N"])
@@ -65,7 +66,7 @@ def main():
             if any(o[0] == "CHG" and o[2] == "N" for o in c["ops"]):
                 probes.append(c)
     elif cases and any(o[0] == "CHG" and o[2] == "N" for o in cases[0]["ops"]):
-        probes, cases = cases, []
+        probes, cases = probes + cases, []
 
     lu.HARNESS_TIMEOUT = 90 if ck.tier == "quick" else 900
     blocks, crashes = lu.run_all(exe, cases, "C10")
